@@ -14,18 +14,23 @@ use crate::trait_object::base::{EqObj, HashObj};
 use crate::trait_object::task::TaskObj;
 use crate::trait_object::KeyObj;
 
-const NT: usize = 7;
+const NT: usize = 9;
+/// zero-sized keys: two different types whose boxed values share the (dangling) address and the (empty) hash
+#[derive(Clone, PartialEq, Eq, Hash, Debug)] pub struct Z1;
+#[derive(Clone, PartialEq, Eq, Hash, Debug)] pub struct Z2;
+impl crate::Task for Z1 { type Output = u8; fn execute<C: crate::Context>(&self, _c: &mut C) -> u8 { 1 } }
+impl crate::Task for Z2 { type Output = u8; fn execute<C: crate::Context>(&self, _c: &mut C) -> u8 { 2 } }
 fn keys(x: u8) -> [Box<dyn KeyObj>; NT] {
-  [Box::new(TA(x)), Box::new(TB(x)), Box::new(TT((x,))), Box::new(Wrap(TA(x))), Box::new(Box::new(TA(x))), Box::new(Rc::new(TA(x))), Box::new(Arc::new(TA(x)))]
+  [Box::new(TA(x)), Box::new(TB(x)), Box::new(TT((x,))), Box::new(Wrap(TA(x))), Box::new(Box::new(TA(x))), Box::new(Rc::new(TA(x))), Box::new(Arc::new(TA(x))), Box::new(Z1), Box::new(Z2)]
 }
 fn tasks(x: u8) -> [Box<dyn TaskObj>; NT] {
-  [Box::new(TA(x)), Box::new(TB(x)), Box::new(TT((x,))), Box::new(Wrap(TA(x))), Box::new(Box::new(TA(x))), Box::new(Rc::new(TA(x))), Box::new(Arc::new(TA(x)))]
+  [Box::new(TA(x)), Box::new(TB(x)), Box::new(TT((x,))), Box::new(Wrap(TA(x))), Box::new(Box::new(TA(x))), Box::new(Rc::new(TA(x))), Box::new(Arc::new(TA(x))), Box::new(Z1), Box::new(Z2)]
 }
 fn h_key(k: &dyn KeyObj) -> u64 { let mut h = XorHasher(0); k.hash(&mut h); h.finish() }
 fn h_task(k: &dyn TaskObj) -> u64 { let mut h = XorHasher(0); k.hash(&mut h); h.finish() }
 
 /// `dyn KeyObj` equality (both impls) over every ordered pair of the seven types.
-//@h props=C15 tier=quick unwind=9
+//@h props=C15 tier=quick unwind=11
 fn c15_keyobj_pairs() {
   let (x, y) = (vk::u8(), vk::u8());
   let (ka, kb) = (keys(x), keys(y));
@@ -33,7 +38,7 @@ fn c15_keyobj_pairs() {
   while i < NT {
     let mut j = 0;
     while j < NT {
-      let expect = i == j && x == y;
+      let expect = i == j && (x == y || i >= 7);
       let eq1 = ka[i].as_ref() == kb[j].as_ref();            // PartialEq for dyn KeyObj
       let eq2 = ka[i] == *kb[j].as_ref();                     // PartialEq<dyn KeyObj> for Box<dyn KeyObj>
       let eq3 = ka[i].as_ref().eq_any(kb[j].as_ref().as_any()); // EqObj (on the value, not on the Box)
@@ -53,7 +58,7 @@ fn c15_keyobj_pairs() {
 }
 
 /// Same for `dyn TaskObj`.
-//@h props=C15 tier=quick unwind=9
+//@h props=C15 tier=quick unwind=11
 fn c15_taskobj_pairs() {
   let (x, y) = (vk::u8(), vk::u8());
   let (ta, tb) = (tasks(x), tasks(y));
@@ -61,7 +66,7 @@ fn c15_taskobj_pairs() {
   while i < NT {
     let mut j = 0;
     while j < NT {
-      let expect = i == j && x == y;
+      let expect = i == j && (x == y || i >= 7);
       assert!((ta[i].as_ref() == tb[j].as_ref()) == expect, "C15 dyn TaskObj == iff same concrete type and equal value");
       assert!((ta[i] == *tb[j].as_ref()) == expect, "C15 Box<dyn TaskObj> == dyn TaskObj iff same concrete type and equal value");
       assert!((ta[i].as_key_obj() == tb[j].as_key_obj()) == expect, "C15 as_key_obj preserves identity");
